@@ -23,6 +23,7 @@ func Creator(ctx context.Context, name string, options map[string]string) (physi
 	defer f.Close()
 
 	fields := make(map[string]octosql.Type)
+	fieldOccurrences := make(map[string]int)
 
 	sc := bufio.NewScanner(f)
 	sc.Buffer(nil, 1024*1024)
@@ -44,6 +45,7 @@ func Creator(ctx context.Context, name string, options map[string]string) (physi
 		}
 
 		o.Visit(func(key []byte, v *fastjson.Value) {
+			fieldOccurrences[string(key)]++
 			if t, ok := fields[string(key)]; ok {
 				fields[string(key)] = octosql.TypeSum(t, getOctoSQLType(v))
 			} else {
@@ -53,6 +55,12 @@ func Creator(ctx context.Context, name string, options map[string]string) (physi
 	}
 	if sc.Err() != nil {
 		return nil, physical.Schema{}, fmt.Errorf("couldn't scan lines: %w", sc.Err())
+	}
+	for k, t := range fields {
+		// A field which is missing in some of the objects is read as NULL there, so its type has to admit NULL.
+		if fieldOccurrences[k] < i {
+			fields[k] = octosql.TypeSum(t, octosql.Null)
+		}
 	}
 
 	var schemaFields []physical.SchemaField
